@@ -47,6 +47,8 @@ pub struct RefProgram {
     /// labels that an installation may or may not name (the model cannot tell, e.g. because the
     /// installing code may be dead): neither required to be functions nor forbidden
     pub maybe_handler_labels: Vec<String>,
+    /// labels written in the data segment in front of a piece of data: they name that data
+    pub data_labels: Vec<String>,
     /// where every label is written: (name, file, zero-based line)
     pub label_sites: Vec<(String, String, usize)>,
 }
@@ -74,6 +76,7 @@ fn parse_int(s: &str) -> Option<i64> {
 pub fn parse(pasted: &[PastedLine]) -> RefProgram {
     let mut p = RefProgram::default();
     let mut pending: Vec<String> = Vec::new();
+    let mut pending_in_data: Vec<String> = Vec::new();
     let mut in_text = true;
     for (pi, pl) in pasted.iter().enumerate() {
         let mut t = pl.text.as_str();
@@ -92,6 +95,9 @@ pub fn parse(pasted: &[PastedLine]) -> RefProgram {
                 break;
             }
             pending.push(name.to_string());
+            if !in_text {
+                pending_in_data.push(name.to_string());
+            }
             p.label_sites.push((name.to_string(), pl.file.clone(), pl.line));
             t = t[c + 1..].trim();
         }
@@ -103,11 +109,18 @@ pub fn parse(pasted: &[PastedLine]) -> RefProgram {
             match d {
                 ".data" => in_text = false,
                 ".text" => in_text = true,
-                ".word" | ".byte" | ".asciz" | ".ascii" | ".string" | ".space" | ".align" | ".half" => {}
+                ".word" | ".byte" | ".asciz" | ".ascii" | ".string" | ".space" | ".half" => {
+                    // the labels written in the data segment in front of it name this piece of data
+                    let (data, keep): (Vec<_>, Vec<_>) = pending.drain(..).partition(|l| pending_in_data.contains(l));
+                    p.data_labels.extend(data);
+                    pending = keep;
+                    pending_in_data.clear();
+                }
+                ".align" => {}
                 _ => p.unrecognised.push(t.to_string()),
             }
-            // like the analyzer, labels (also those written in a data block) name the next
-            // instruction; nothing jumps to a data label, so keeping them is harmless here
+            // other labels (a function's labels written before a local data block) go on to name
+            // the next instruction
             continue;
         }
         let (mn, rest) = t.split_once(char::is_whitespace).unwrap_or((t, ""));
